@@ -1,5 +1,5 @@
-\* negative control: a failed create that puts back a snapshot of the target book-keeping (taken before its duplicate check)
-\* wipes the entries of a request admitted in between - MUST violate the contract (BookImplied at the next quiescent point)
+\* exhaustive: the design with up to two create requests in flight satisfies the contract at every quiescent point
+\* (4 specification shapes incl. the partially overlapping pair, one target, user-role flag, a store fault in either section of a create, task limit, delete, restart; depth 6)
 SPECIFICATION Spec
 CHECK_DEADLOCK FALSE
 VIEW view
@@ -16,7 +16,7 @@ CONSTANTS
   NoAutos = {FALSE}
   Faults = {0, 1, 4}
   DelFaults = {0}
-  MaxOps = 4
+  MaxOps = 6
   MaxLive = 3
   WithRestart = TRUE
   SimPrint = FALSE
@@ -27,4 +27,4 @@ CONSTANTS
   UserRoleReverted = TRUE
   ReloadOrsUserRole = TRUE
   MaxFlight = 2
-  RevertBySnapshot = TRUE
+  RevertBySnapshot = FALSE
